@@ -27,13 +27,14 @@ def build_case(u):
         else:
             names.append(gen.g_oid(u, 2, 10))
         vals.append(gen.g_any_value(u))
-    return {"cfg": cfg, "op": op, "driver": driver, "kind": kind, "names": names, "vals": vals}
+    # history: the tested call may be preceded by an ordinary exchange that leaves the session with large boots/time
+    return {"cfg": cfg, "op": op, "driver": driver, "kind": kind, "names": names, "vals": vals, "warmup": u.below(3) == 0}
 
 
 def describe(c):
     return {"cfg": c["cfg"].describe(), "_cfg": gen.cfg_to_json(c["cfg"]), "op": c["op"], "driver": c["driver"], "kind": c["kind"],
             "_names": [list(n) for n in c["names"]], "_tlvs": [v.tlv for v in c["vals"]], "_kinds": [v.kind for v in c["vals"]],
-            "_pys": [({"float": repr(v.py)} if isinstance(v.py, float) else v.py) for v in c["vals"]]}
+            "_pys": [({"float": repr(v.py)} if isinstance(v.py, float) else v.py) for v in c["vals"]], "warmup": c.get("warmup", False)}
 
 
 def expected(G, c):
@@ -65,8 +66,15 @@ def execute(G, c):
     cfg = c["cfg"]
     vbs = [rb.varbind(rb.enc_oid(n), v.tlv) for n, v in zip(c["names"], c["vals"])]
 
+    st = {"n": 0}
+    warm = bool(c.get("warmup"))
+
     def handler(d):
         req = ag.decode_request(cfg, d, strict=False)
+        st["n"] += 1
+        if warm and st["n"] == 1:
+            kw = {"boots": 1000, "time": 500000} if cfg.version == "v3" else {}
+            return [ag.build_reply(cfg, req, [rb.varbind(rb.enc_oid((1, 3, 6, 1, 2, 1, 1, 1, 0)), rb.enc_int(1))], **kw)]
         if c["kind"] == "silent":
             return []
         if c["kind"] == "report":
@@ -74,7 +82,11 @@ def execute(G, c):
         return [ag.build_reply(cfg, req, vbs)]
 
     call = ("get", "1.3.6.1.2.1.1.1.0") if c["op"] == "get" else ("get_many", ["1.3.6.1.2.1.1.1.0", "1.3.6.1.2.1.1.3.0"])
-    out = drivers.run_api(G, c["driver"], cfg, call, handler, timeout=0.12 if c["kind"] == "silent" else 2.0)
+    calls = ([("get", "1.3.6.1.2.1.1.1.0")] if warm else []) + [call]
+    outs = drivers.run_calls(G, c["driver"], cfg, calls, handler, timeout=0.12 if c["kind"] == "silent" else 2.0)
+    if warm and not (outs[0].kind == "ok" and outs[0].value == 1):
+        raise core.Failure("warmup-exchange-failed", "plain get before the tested call gave %r over %s" % (outs[0], cfg.describe()))
+    out = outs[-1]
     exp = expected(G, c)
     shape = "%s/%s/%s" % (c["op"], c["kind"], ",".join(v.kind for v in c["vals"]))
     info = "%s over %s [%s] reply=%s -> %r" % (c["op"], cfg.describe(), c["driver"], shape, out)
@@ -126,7 +138,7 @@ def replay(rep, case, body=None):
     vals = [gen.Val(k, (float(p["float"]) if isinstance(p, dict) and "float" in p else p), t)
             for k, p, t in zip(case["_kinds"], case["_pys"], case["_tlvs"])]
     c = {"cfg": gen.cfg_from_json(case["_cfg"]), "op": case["op"], "driver": case["driver"], "kind": case["kind"],
-         "names": [tuple(n) for n in case["_names"]], "vals": vals}
+         "names": [tuple(n) for n in case["_names"]], "vals": vals, "warmup": case.get("warmup", False)}
     try:
         execute(G, c)
     except core.Failure as f:
